@@ -280,6 +280,10 @@ func (sc *pubScn) noteStep(st *c09State, a *pubActor, c *vfClient, stepNo int) {
 			rb0 = chnRows[author.uid]
 		}
 		switch {
+		case st.tainted[author.uid]:
+			// the stored marks of this user are already out of order (recorded finding: a read note beyond the
+			// received mark); what later notes do to them follows from that state and is not judged again
+			r.Hit("note_of_user_with_disordered_marks_observation")
 		case what == "read" && ra.ReadSeqId != rb0.ReadSeqId && ra.ReadSeqId != seq:
 			r.Violation("valid-note-wrong-mark:read", fmt.Sprintf("read note seq=%d: stored read went %d -> %d", seq, rb0.ReadSeqId, ra.ReadSeqId), wit(nil))
 		case what == "recv" && ra.RecvSeqId != rb0.RecvSeqId && ra.RecvSeqId != seq:
